@@ -10,6 +10,7 @@ CONSTANTS
   Direct = FALSE
   MidCrash = TRUE
   Timeouts = FALSE
+  MaxWriteFaults = 0
 INVARIANT ContainerOK
 INVARIANT TopIsHeight
 INVARIANT StorageShape
